@@ -279,4 +279,106 @@ mod k {
         std::mem::forget(got);
         std::mem::forget(acls);
     }
+
+    // ---- subnet list PRESENT BUT EMPTY (`match-subnets: []` -> parse_array -> Some(vec![])) -------------
+    // Manual / first-match semantics: "any of the listed subnets contains the client"; an empty list lists
+    // nobody, so such a rule matches no client and must not shadow the rules after it.  The reference
+    // (ref_rule_matches on R<0> with Some([])) evaluates the ANY over zero prefixes = false.
+
+    fn any_unix_cond() -> Option<bool> {
+        if kani::any() { Some(kani::any()) } else { None }
+    }
+
+    /// VERIF: {"p":"C08","tier":"quick","fns":["acl::require_permission","acl::check_authenticated","acl::Acl::check","acl::check_subnet"],"bounds":"3 rules: {subnet list present but EMPTY, unix flag symbolic (absent/true/false)}, {one symbolic IPv4 prefix (host bits free), unix flag symbolic}, {subnet list present but EMPTY, no unix flag}; 4 symbolic permission bits per rule; client symbolic IPv4 or IPv6 (incl. v4-mapped), any port; all 4 operations","oracle":"a rule whose subnet list is empty matches nobody (ANY over zero prefixes) whatever its unix flag says, so the decision is that of the second rule alone: its permission bit if it matches, else NotAuthenticated; the empty-list rule in front never shadows it","covers":4,"unwind":5}
+    #[kani::proof]
+    #[kani::unwind(5)]
+    fn c08_acl_empty_subnet_list_matches_nobody() {
+        let r0: R<0> = R { subnet: Some([]), unix: any_unix_cond(), perm: any_perm() };
+        let r1: R<1> = R { subnet: Some([any_p4()]), unix: any_unix_cond(), perm: any_perm() };
+        let r2: R<0> = R { subnet: Some([]), unix: None, perm: any_perm() };
+        let c = if kani::any() { C::V4(kani::any()) } else { C::V6(kani::any()) };
+        let acls = vec![mk_rule(&r0), mk_rule(&r1), mk_rule(&r2)];
+        assert!(matches!(&acls[0].subnet, Some(v) if v.is_empty()), "harness sanity: list present and empty");
+        let attr = mk_client(c);
+        let (op, o) = any_op();
+        let got = require_permission(&acls, &attr, op);
+        let (m0, m1, m2) = (ref_rule_matches(&r0, c), ref_rule_matches(&r1, c), ref_rule_matches(&r2, c));
+        assert!(!m0 && !m2, "reference: ANY over an empty list is false");
+        let first = if m1 { Some(r1.perm) } else { None };
+        kani::cover!(m1 && bit(r1.perm, o) && !bit(r0.perm, o) && r0.unix.is_none(), "second rule grants; a shadowing empty-list rule would have denied");
+        kani::cover!(m1 && !bit(r1.perm, o) && bit(r0.perm, o), "second rule denies; a shadowing empty-list rule would have granted");
+        kani::cover!(!m1 && bit(r0.perm, o) && bit(r2.perm, o) && r0.unix == Some(false), "nobody matches although both empty-list rules carry the permission");
+        kani::cover!(m1 && matches!(c, C::V6(_)), "v4-mapped client decided by the second rule");
+        expect(first, o, &got);
+        std::mem::forget(got);
+        std::mem::forget(acls);
+    }
+
+    /// VERIF: {"p":"C08","tier":"quick","fns":["acl::require_permission","acl::Acl::check","acl::check_subnet"],"bounds":"unix-socket client against 3 rules: {subnet list present but EMPTY, unix flag symbolic (absent/true/false)}, {no subnet list, unix flag symbolic}, {no conditions}; symbolic permission bits; all 4 operations","oracle":"the empty-list rule never matches, not even with `unix: true` for a unix client (conditions are ANDed); the first of the remaining rules whose unix condition holds decides","covers":3,"unwind":5}
+    #[kani::proof]
+    #[kani::unwind(5)]
+    fn c08_acl_empty_subnet_list_unix_client() {
+        let r0: R<0> = R { subnet: Some([]), unix: any_unix_cond(), perm: any_perm() };
+        let r1: R<0> = R { subnet: None, unix: any_unix_cond(), perm: any_perm() };
+        let r2: R<0> = R { subnet: None, unix: None, perm: any_perm() };
+        let c = C::Unix;
+        let acls = vec![mk_rule(&r0), mk_rule(&r1), mk_rule(&r2)];
+        let attr = mk_client(c);
+        let (op, o) = any_op();
+        let got = require_permission(&acls, &attr, op);
+        let (m0, m1, m2) = (ref_rule_matches(&r0, c), ref_rule_matches(&r1, c), ref_rule_matches(&r2, c));
+        assert!(!m0 && m2, "reference sanity");
+        let first = if m1 { Some(r1.perm) } else { Some(r2.perm) };
+        kani::cover!(r0.unix == Some(true) && bit(r0.perm, o) && m1 && !bit(r1.perm, o), "empty list + unix:true in front must not grant");
+        kani::cover!(r0.unix.is_none() && !bit(r0.perm, o) && m1 && bit(r1.perm, o), "empty list in front must not deny");
+        kani::cover!(!m1 && bit(r2.perm, o), "third rule decides");
+        expect(first, o, &got);
+        std::mem::forget(got);
+        std::mem::forget(acls);
+    }
+
+    /// VERIF: {"p":"C08","tier":"quick","fns":["acl::default_acls","acl::require_permission","acl::Acl::check","config::Prefix::contains"],"bounds":"default ACLs derived from an EMPTY `addresses` list (nothing configured); client symbolic IPv4 or IPv6 (incl. v4-mapped), any port; all 4 operations","oracle":"granted <=> loopback client (127.0.0.0/8, its v4-mapped image, or ::1); every other network client is refused as NotAuthenticated - the empty first rule grants nobody","covers":4,"unwind":5}
+    #[kani::proof]
+    #[kani::unwind(5)]
+    fn c08_default_acls_no_addresses() {
+        let acls = default_acls(&[]);
+        assert!(matches!(&acls[0].subnet, Some(v) if v.is_empty()), "first default rule has a present-but-empty list");
+        let c = if kani::any() { C::V4(kani::any()) } else { C::V6(kani::any()) };
+        let attr = mk_client(c);
+        let (op, _o) = any_op();
+        let got = require_permission(&acls, &attr, op);
+        let lo4 = P::V4(0x7f00_0000, 8);
+        let lo6 = P::V6(1, 128);
+        let want = ref_contains(lo4, c) || ref_contains(lo6, c);
+        kani::cover!(want && matches!(c, C::V4(_)), "v4 loopback");
+        kani::cover!(want && matches!(c, C::V6(x) if x == 1), "::1");
+        kani::cover!(want && matches!(c, C::V6(x) if x != 1), "v4-mapped loopback");
+        kani::cover!(!want, "outsider");
+        if want {
+            assert!(got.is_ok(), "loopback clients are granted every operation");
+        } else {
+            assert!(matches!(got, Err(AclError::NotAuthenticated)), "with no `addresses` configured outsiders are refused");
+        }
+        std::mem::forget(got);
+        std::mem::forget(acls);
+    }
+
+    /// VERIF: {"p":"C08","tier":"quick","fns":["acl::default_acls","acl::require_permission"],"bounds":"default ACLs derived from an EMPTY `addresses` list; unix-socket client; all 4 operations","oracle":"the empty first rule does not capture the unix client: it gets the three HTTP permissions of the unix rule and is NotAuthorised for DNS recursion","covers":2,"unwind":5}
+    #[kani::proof]
+    #[kani::unwind(5)]
+    fn c08_default_acls_no_addresses_unix() {
+        let acls = default_acls(&[]);
+        let attr = mk_client(C::Unix);
+        let (op, o) = any_op();
+        let got = require_permission(&acls, &attr, op);
+        kani::cover!(o == 0, "dns");
+        kani::cover!(o == 2, "metrics");
+        if o == 0 {
+            assert!(matches!(got, Err(AclError::NotAuthorised(_))), "unix socket clients may not recurse");
+        } else {
+            assert!(got.is_ok(), "unix socket clients may use the HTTP API");
+        }
+        std::mem::forget(got);
+        std::mem::forget(acls);
+    }
 }
